@@ -156,6 +156,7 @@ def run(S):
     st, detail, secs = ideal.prove_eq_mod(so3, [(C_FQ[i, j], QCQ[i, j]) for i in range(3) for j in range(3)])
     S.decided('kinematics/right_cauchy_green_rotates_with_reference_rotation', 'proved' if st == 'proved' else 'unknown', 'ideal', detail=detail, seconds=secs)
     _scalar_isotropy(S, so3, Q)
+    bounded(S)
 
 
 def _admissible(spec):
@@ -214,7 +215,7 @@ def _scalar_isotropy(S, so3, Q):
 def _native_energy(name):
     M = _models()
     spec = M[name]
-    vals = {'E': 10.0, 'nu': 0.25, 'K': 8.0, 'G': 3.0, 'Jm': 10.0, 'Y0': 0.5, 'Hmod': 1.0, 'Keq': 8.0, 'Geq': 3.0, 'Gneq': 2.0, 'tau': 0.7,
+    vals = {'E': 10.0, 'nu': 0.25, 'K': 8.0, 'G': 3.0, 'Jm': 10.0, 'Y0': 1.0e3, 'Hmod': 1.0, 'Keq': 8.0, 'Geq': 3.0, 'Gneq': 2.0, 'tau': 0.7,
             'Gneq1': 2.0, 'tau1': 0.7, 'Gneq2': 1.0, 'tau2': 1.5, 'Gneq3': 0.5, 'tau3': 4.0, 'Gc': 1.0, 'ell': 0.1}
     p = [vals[x.data] for x in spec['params']]
     f = _energy_fn(spec)
@@ -242,3 +243,99 @@ def _replay_rot(name, side):
     F2 = Qm @ Fm if side == 'left' else Fm @ Qm.T
     w1, w2 = float(f(jnp.asarray(Hm))), float(f(jnp.asarray(F2 - onp.eye(3))))
     return dict(reproduced=bool(abs(w1 - w2) > 1e-9 * (1 + abs(w1))), W_F=w1, W_rotated=w2, side=side, params=p)
+
+
+def bounded(S):
+    """bounded stand-ins (labelled bounded): the REAL energies including the real eigen-based tensor
+    functions, evaluated as one compiled batch: invariance under superposed and reference rotations,
+    symmetric Kirchhoff stress. Two separately reported categories: (a) generic, in-plane and
+    double-lowest/triple states; (b) states whose two LARGEST principal stretches coincide exactly, in
+    a generic 3D orientation (see known finding F13: the batched eigen-solver loses accuracy there)"""
+    for cat in ('generic-inplane-uniaxial-equibiaxial-and-dilation-states', 'exactly-two-equal-stretches-in-generic-3d-orientation'):
+        _bounded_cat(S, cat)
+
+
+def _bounded_cat(S, cat):
+    M = _models()
+    # category (b) reproduces a recorded finding: fixed witness inputs, independent of VERIF_SEED
+    rng = onp.random.default_rng(809 if cat.startswith('exactly-two-equal') else S.seed + 808)
+    nsamp = 24 if (S.tier == 'quick' or cat.startswith('exactly-two-equal')) else 200
+    fails, cases = [], 0
+
+    def rot():
+        A = rng.standard_normal((3, 3))
+        Qm, _ = onp.linalg.qr(A)
+        if onp.linalg.det(Qm) < 0:
+            Qm[:, 0] *= -1
+        return Qm
+
+    def rot_inplane():
+        th = rng.uniform(0, 2 * onp.pi)
+        return onp.array([[onp.cos(th), -onp.sin(th), 0.], [onp.sin(th), onp.cos(th), 0.], [0., 0., 1.]])
+    Fs, QL, QR = [], [], []
+    for k in range(nsamp):
+        mag = 10 ** rng.uniform(-4, -0.3)
+        if cat.startswith('exactly-two-equal'):
+            U = onp.diag([1 + mag, 1 + mag, 1.0]) if k % 2 else onp.diag([1 + mag, 1.0, 1.0])
+            Fs.append(rot() @ U @ rot().T)
+            QL.append(rot())
+            QR.append(rot())
+            continue
+        kind = k % 4
+        if kind == 0:          # generic 3D stretch, generic rotations
+            U = onp.eye(3) + mag * rng.standard_normal((3, 3))
+            U = 0.5 * (U + U.T)
+            Fs.append(rot() @ U)
+            QL.append(rot())
+            QR.append(rot())
+        elif kind == 1:        # uniaxial strain along an arbitrary in-plane axis (plane-strain block form)
+            R = rot_inplane()
+            U = R @ onp.diag([1 + mag, 1.0, 1.0]) @ R.T
+            Fs.append(rot_inplane() @ U)
+            QL.append(rot_inplane())
+            QR.append(rot_inplane())
+        elif kind == 2:        # equibiaxial in-plane stretch
+            Fs.append(rot_inplane() @ onp.diag([1 + mag, 1 + mag, 1.0]))
+            QL.append(rot_inplane())
+            QR.append(rot_inplane())
+        else:                  # pure dilation, generic rotations
+            Fs.append(rot() @ onp.diag([1 + mag] * 3))
+            QL.append(rot())
+            QR.append(rot())
+    Fs, QL, QR = (jnp.asarray(onp.array(x)) for x in (Fs, QL, QR))
+    eye = jnp.eye(3)
+    for name, spec in M.items():
+        if not spec['finite']:
+            continue
+        f, p = _native_energy(name)
+        cases += 1
+        try:
+            with _quiet():
+                W = jax.jit(jax.vmap(lambda F: f(F - eye)))
+                P = jax.jit(jax.vmap(jax.grad(lambda F: f(F - eye))))
+                w0 = onp.asarray(W(Fs))
+                wl = onp.asarray(W(jnp.einsum('nij,njk->nik', QL, Fs)))
+                wr = onp.asarray(W(jnp.einsum('nij,nkj->nik', Fs, QR)))
+                Pk = onp.asarray(P(Fs))
+            tau_ = onp.einsum('nij,nkj->nik', Pk, onp.asarray(Fs))
+            scale = onp.abs(w0) + 1e-300
+            el = onp.abs(wl - w0) / scale
+            er = onp.abs(wr - w0) / scale
+            es = onp.max(onp.abs(tau_ - tau_.transpose(0, 2, 1)), axis=(1, 2)) / (onp.max(onp.abs(tau_), axis=(1, 2)) + 1e-300)
+            probs = []
+            tol = 1e-7
+            if not onp.all(onp.isfinite(w0)):
+                probs.append('non-finite energy in the batch (sample %d)' % int(onp.argmax(~onp.isfinite(w0))))
+            if onp.nanmax(el) > tol:
+                probs.append('W(QF) differs from W(F): relative %.3g at sample %d' % (onp.nanmax(el), int(onp.nanargmax(el))))
+            if onp.nanmax(er) > tol:
+                probs.append('W(FQ^T) differs from W(F): relative %.3g at sample %d' % (onp.nanmax(er), int(onp.nanargmax(er))))
+            if onp.nanmax(es) > 1e-7:
+                probs.append('Kirchhoff stress not symmetric: relative %.3g at sample %d' % (onp.nanmax(es), int(onp.nanargmax(es))))
+        except Exception as ex:
+            probs = ['%s: %s' % (type(ex).__name__, str(ex)[:200])]
+        if probs:
+            fails.append(dict(input=dict(model=name, params=p, seed=S.seed + 808, samples=nsamp, category=cat), observed=probs[:3]))
+    S.bounded_check('materials/bounded-rotation-invariance-in-compiled-batches[%s]' % cat,
+                    'real energy densities with the real eigen-based tensor functions, one jit(vmap) batch per model: |W(QF)-W(F)|, |W(FQ^T)-W(F)| <= 1e-7 relative, symmetric Kirchhoff stress; strains 1e-4..0.5; category: %s' % cat,
+                    '%d states per model' % nsamp, cases * nsamp, fails)
